@@ -12,7 +12,9 @@ package main
 //                       (types, ranges, gas, …); "stack is too big" is NOT flagged: the model
 //                       has to predict it from its own counter
 //             e <obs>  (echo) once a case has executed an instruction outside the modelled set
-// obs line:   <NONE|HALT> <refs> <reach> <depth>   |   FAULT
+// obs line:   <NONE|HALT> <refs> <reach> <depth> <reachG>   |   FAULT
+//             reachG: what a walk from the roots AND from the ghost list (items of the evaluation stacks dropped
+//             by exception unwinding so far) finds; without cycles it must equal refs (refs_exact_unwind)
 
 import (
 	"encoding/binary"
@@ -242,6 +244,11 @@ func describe(v *vm.VM, op opcode.Opcode, param []byte) (body string, modelled b
 			m := stackitem.NewMap()
 			for i := 0; i < n; i++ {
 				key, val := peek(v, 1+2*i), peek(v, 2+2*i)
+				if isCompound(key) {
+					// Map.Add panics on it: the model has to predict this FAULT (no `!`, see compoundKey)
+					sb.WriteString(" -1")
+					continue
+				}
 				if stackitem.IsValidMapKey(key) != nil {
 					break
 				}
@@ -289,6 +296,28 @@ func describe(v *vm.VM, op opcode.Opcode, param []byte) (body string, modelled b
 		return name, true, true
 	}
 	return name, true, false
+}
+
+// compoundKey: the instruction about to run is a SETITEM / PACKMAP whose key operand (one of the
+// n key operands) is an Array, Struct or Map. validateMapKey (vm.go:1454) / Map.Add (item.go:875)
+// panic on it; the accounting model carries that check itself (Machine.lean setitemTail,
+// packMapLoop), so such a FAULT is not flagged with `!`.
+func compoundKey(v *vm.VM, op opcode.Opcode) bool {
+	switch op {
+	case opcode.SETITEM:
+		return isCompound(peek(v, 1))
+	case opcode.PACKMAP:
+		n, ok := intOf(peek(v, 0))
+		if !ok || n < 0 || 2*n > v.Estack().Len()-1 {
+			return false
+		}
+		for i := 0; i < n; i++ {
+			if isCompound(peek(v, 1+2*i)) {
+				return true
+			}
+		}
+	}
+	return false
 }
 
 type stepInfo struct {
@@ -367,6 +396,8 @@ func (rn *runner) exec(p *caseProg, emit bool) runResult {
 		underOff  bool // an under-count was already reported for this case
 		lost      bool
 		pendExc   bool
+		ghost     []stackitem.Item // items of the evaluation stacks dropped by exception unwinding so far
+		finding   bool             // the known finding was already reported for this case
 		lastOp    = "LOAD"
 		badIP     string
 		checkedIP int
@@ -429,31 +460,44 @@ func (rn *runner) exec(p *caseProg, emit bool) runResult {
 		_ = stepped
 		return fmt.Sprintf("%s %d %d %d", name, refs, wr.reach, depth)
 	}
+	// withGhost completes an observation with reachG; to be called right after check() (the walker
+	// still holds the marks of that walk) once the ghost list is up to date
+	withGhost := func(obs string) string {
+		if obs == "FAULT" {
+			return obs
+		}
+		return fmt.Sprintf("%s %d", obs, walkGhost(ghost))
+	}
 
+	// exactness: without cycles the counter equals what a walk from the roots and from the ghost
+	// list finds (refs_exact_unwind) — strictly; the part of it that the ghost list explains is the
+	// known finding, reported once per case.
 	exactness := func(obs string, unwoundAcross bool, droppedPrims, droppedAll int) {
 		if exactOff || underOff || everCyc || obs == "FAULT" {
 			return
 		}
-		var refs, reach, depth int
+		var refs, reach, depth, reachG int
 		var st string
-		fmt.Sscanf(obs, "%s %d %d %d", &st, &refs, &reach, &depth)
-		if refs == reach {
+		fmt.Sscanf(obs, "%s %d %d %d %d", &st, &refs, &reach, &depth, &reachG)
+		if refs != reachG {
+			exactOff = true
+			res.leaked = true
+			o.Fail("refs-mismatch-after-"+lastOp, rn.k, "after %s: VM counter %d, %d reachable by walking (%d together with the %d items of evaluation stacks dropped by unwinding), no cyclic structure was ever built", lastOp, refs, reach, reachG, len(ghost))
 			return
 		}
-		exactOff = true
-		res.leaked = true
-		switch {
-		case unwoundAcross && droppedPrims == droppedAll && refs-reach == droppedAll:
-			o.Fail("unwind-across-estack", rn.k, "after %s unwinding to a context with another evaluation stack: VM counter %d, %d reachable by walking (%d items of the dropped stack(s) stay counted), no cyclic structure was ever built", lastOp, refs, reach, droppedAll)
-		case unwoundAcross && refs > reach:
-			o.Fail("unwind-across-estack", rn.k, "after %s unwinding to a context with another evaluation stack: VM counter %d, %d reachable by walking (dropped stack(s) held %d items, some compound), no cyclic structure was ever built", lastOp, refs, reach, droppedAll)
-		default:
-			o.Fail("refs-mismatch-after-"+lastOp, rn.k, "after %s: VM counter %d, %d reachable by walking, no cyclic structure was ever built", lastOp, refs, reach)
+		if refs != reach && !finding {
+			finding = true
+			res.leaked = true
+			if unwoundAcross && droppedPrims == droppedAll {
+				o.Fail("unwind-across-estack", rn.k, "after %s unwinding to a context with another evaluation stack: VM counter %d, %d reachable by walking (%d items of the dropped stack(s) stay counted), no cyclic structure was ever built", lastOp, refs, reach, droppedAll)
+			} else {
+				o.Fail("unwind-across-estack", rn.k, "after %s unwinding to a context with another evaluation stack: VM counter %d, %d reachable by walking (dropped stack(s) held %d items, some compound), no cyclic structure was ever built", lastOp, refs, reach, droppedAll)
+			}
 		}
 	}
 
 	if emit {
-		o.Line("load", check(false))
+		o.Line("load", withGhost(check(false)))
 	}
 	for {
 		st := v.State()
@@ -493,6 +537,7 @@ func (rn *runner) exec(p *caseProg, emit bool) runResult {
 				everCyc = true
 			}
 		}
+		keyFault := derr == nil && compoundKey(v, op)
 		before := snapshot(v)
 		throwerStack := v.Estack()
 		mayRaise := throws || (op == opcode.ENDFINALLY && pendExc)
@@ -573,6 +618,7 @@ func (rn *runner) exec(p *caseProg, emit bool) runResult {
 						droppedPrims++
 					}
 				}
+				ghost = append(ghost, its...)
 			}
 			if emit {
 				o.Count(fmt.Sprintf("unwind:k=%d,c=%d", min(kpop, 3), c))
@@ -583,10 +629,19 @@ func (rn *runner) exec(p *caseProg, emit bool) runResult {
 		} else if raised {
 			pendExc = false
 		}
+		obs = withGhost(obs)
 		flag := ""
-		if obs == "FAULT" && (stepErr == nil || !strings.Contains(stepErr.Error(), "stack is too big")) {
-			// neither "stack is too big: n vs 2048" nor "invocation stack is too big: n" is flagged
+		if obs == "FAULT" && (stepErr == nil || !strings.Contains(stepErr.Error(), "stack is too big")) && !keyFault {
+			// neither "stack is too big: n vs 2048" nor "invocation stack is too big: n" is flagged,
+			// nor a compound map key in SETITEM / PACKMAP
 			flag = " !"
+		}
+		if keyFault {
+			if obs != "FAULT" {
+				o.Fail("compound-map-key-accepted", rn.k, "%s with an Array/Struct/Map as key did not FAULT", op)
+			} else if emit {
+				o.Count("fault:compound-map-key (predicted by the model)")
+			}
 		}
 		if emit {
 			if !modelled {
